@@ -300,4 +300,9 @@ where
     pub fn verif_hamiltonian(&self) -> &A::Hamiltonian {
         &self.hamiltonian
     }
+
+    /// Verification hook: read access to the current state.
+    pub fn verif_state(&self) -> &State<M, <A::Hamiltonian as Hamiltonian<M>>::Point> {
+        &self.state
+    }
 }
